@@ -273,21 +273,38 @@ Fixpoint block_with (rs : pstmt -> M (option stmt)) (ss : list pstmt) : M (list 
       ret (match o with Some s' => s' :: rest | None => rest end)
   end.
 
-(* fn if_branch: NOTE no truncate -- what the branch body pushes stays on the stack *)
-Definition if_branch_with (re : pexpr -> M expr) (rs : pstmt -> M (option stmt)) (b : pifbranch) : M ifbranch :=
+(* Whether `fn if_branch` / `fn case_branch` restore the stack (`self.stack.truncate(..)`) when they
+   are done.  On the pinned tree neither does: what a branch body (or a case arm, including its bound
+   variable, or the `else` block of a case) pushes stays on the stack.  The flags are regenerated from name_resolution.rs on
+   every run (tools/gens/gen_resolve.py -> Gen/GenResolve.v). *)
+Record rflags := mkFlags {
+  if_truncates : bool;        (* fn if_branch *)
+  case_truncates : bool;      (* fn case_branch *)
+  else_truncates : bool       (* the `fall_through` block of a case, resolved inside fn expression *)
+}.
+
+Definition truncate_if (b : bool) (len : nat) : M unit := if b then truncate len else ret tt.
+
+(* fn if_branch *)
+Definition if_branch_with (fl : rflags) (re : pexpr -> M expr) (rs : pstmt -> M (option stmt)) (b : pifbranch)
+  : M ifbranch :=
   match b with
   | PIfBranch cond body sp =>
       c <- optM re cond ;;
+      len <- stack_len ;;
       body' <- block_with rs body ;;
+      _ <- truncate_if (if_truncates fl) len ;;
       ret (IfBranch c body' sp)
   end.
 
-(* fn case_branch: NOTE no truncate -- the bound variable and the body's definitions stay on the stack *)
-Definition case_branch_with (rs : pstmt -> M (option stmt)) (b : pcasebranch) : M casebranch :=
+(* fn case_branch *)
+Definition case_branch_with (fl : rflags) (rs : pstmt -> M (option stmt)) (b : pcasebranch) : M casebranch :=
   match b with
   | PCaseBranch pat v body =>
+      len <- stack_len ;;
       v' <- optM (fun i => push_var i Const) v ;;
       body' <- block_with rs body ;;
+      _ <- truncate_if (case_truncates fl) len ;;
       ret (CaseBranch (i_name pat) (i_span pat) v' body' (i_span pat))
   end.
 
@@ -344,14 +361,14 @@ Definition fields_m (fs : list (ident * pty)) : M (list (string * (span * ty))) 
 Definition stack_begin_name (nm : string) : string :=
   "== STACK BEGIN " ++ String (ascii_of_nat 34) (nm ++ String (ascii_of_nat 34) " ==").
 
-Fixpoint expr_r (fuel : nat) (e : pexpr) {struct fuel} : M expr :=
+Fixpoint expr_r (fl : rflags) (fuel : nat) (e : pexpr) {struct fuel} : M expr :=
   match fuel with
   | 0 => fun _ => OutOfFuel
   | S f =>
-    let re := expr_r f in
-    let rs := stmt_r f in
+    let re := expr_r fl f in
+    let rs := stmt_r fl f in
     match e with
-    | PGet a _ => assign_r f a
+    | PGet a _ => assign_r fl f a
     | PAdd a b sp => binop_with re Add a b sp
     | PSub a b sp => binop_with re Sub a b sp
     | PMul a b sp => binop_with re Mul a b sp
@@ -364,12 +381,15 @@ Fixpoint expr_r (fuel : nat) (e : pexpr) {struct fuel} : M expr :=
     | PNot a sp => uniop_with re Not a sp
     | PParenthesis x _ => re x
     | PIf brs sp =>
-        brs' <- mapM (if_branch_with re rs) brs ;;
+        brs' <- mapM (if_branch_with fl re rs) brs ;;
         ret (EIf brs' sp)
     | PCase tm brs ft sp =>
         tm' <- re tm ;;
-        brs' <- mapM (case_branch_with rs) brs ;;
-        ft' <- optM (block_with rs) ft ;;
+        brs' <- mapM (case_branch_with fl rs) brs ;;
+        ft' <- optM (fun b => len <- stack_len ;;
+                              b' <- block_with rs b ;;
+                              _ <- truncate_if (else_truncates fl) len ;;
+                              ret b') ft ;;
         ret (ECase tm' brs' ft' sp)
     | PFunction nm params rt body pure sp =>
         ss <- stack_len ;;
@@ -393,17 +413,17 @@ Fixpoint expr_r (fuel : nat) (e : pexpr) {struct fuel} : M expr :=
     end
   end
 
-with assign_r (fuel : nat) (a : passign) {struct fuel} : M expr :=
+with assign_r (fl : rflags) (fuel : nat) (a : passign) {struct fuel} : M expr :=
   match fuel with
   | 0 => fun _ => OutOfFuel
   | S f =>
-    let re := expr_r f in
+    let re := expr_r fl f in
     match a with
     | ARead i _ =>
         v <- lift (fun st => lookup st (i_name i) (i_span i)) ;;
         ret (ERead v (i_span i))
     | AVariant enum_ass variant value sp =>
-        e <- assign_r f enum_ass ;;
+        e <- assign_r fl f enum_ass ;;
         match e with
         | ERead v _ =>
             value' <- re value ;;
@@ -411,12 +431,12 @@ with assign_r (fuel : nat) (a : passign) {struct fuel} : M expr :=
         | _ => fail EVariantNotRead sp
         end
     | ACall fn args sp =>
-        fn' <- assign_r f fn ;;
+        fn' <- assign_r fl f fn ;;
         args' <- mapM re args ;;
         ret (ECall fn' args' sp)
     | AArrowCall extra fn args sp =>
         extra' <- re extra ;;
-        fn' <- assign_r f fn ;;
+        fn' <- assign_r fl f fn ;;
         args' <- mapM re args ;;
         ret (ECall fn' (extra' :: args') sp)
     | AAccess a' i sp =>
@@ -430,23 +450,23 @@ with assign_r (fuel : nat) (a : passign) {struct fuel} : M expr :=
             | None => fail ENothingMatched sp
             end
         | None =>
-            v <- assign_r f a' ;;
+            v <- assign_r fl f a' ;;
             ret (EBlobAccess v (i_name i) (i_span i))
         end
     | AIndex a' idx sp =>
-        v <- assign_r f a' ;;
+        v <- assign_r fl f a' ;;
         idx' <- re idx ;;
         ret (EIndex v idx' sp)
     | AExpression e _ => re e
     end
   end
 
-with stmt_r (fuel : nat) (s : pstmt) {struct fuel} : M (option stmt) :=
+with stmt_r (fl : rflags) (fuel : nat) (s : pstmt) {struct fuel} : M (option stmt) :=
   match fuel with
   | 0 => fun _ => OutOfFuel
   | S f =>
-    let re := expr_r f in
-    let rs := stmt_r f in
+    let re := expr_r fl f in
+    let rs := stmt_r fl f in
     match s with
     | PEmptyStatement _ | PFromUse _ _ _ _ | PUse _ _ _ _ => ret None
     | PBlobDef nm vars fields ext sp =>
@@ -488,7 +508,7 @@ with stmt_r (fuel : nat) (s : pstmt) {struct fuel} : M (option stmt) :=
         ret (Some (SDefinition (i_name i) (snd vv) k t' (fst vv) (i_span i)))
     | PAssignment op target value sp =>
         value' <- re value ;;
-        target' <- assign_r f target ;;
+        target' <- assign_r fl f target ;;
         ret (Some (SAssignment (assign_binop op) target' value' sp))
     | PLoop cond body sp =>
         cond' <- re cond ;;
@@ -648,22 +668,22 @@ Definition init_state (ast : past) : rstate :=
   mkSt [] [] [] 0 (map (fun m => (m_file_id m, m_file m)) ast).
 
 (* pub fn resolve *)
-Definition resolve_m (fuel : nat) (ast : past) : M (list stmt) :=
+Definition resolve_m (fl : rflags) (fuel : nat) (ast : past) : M (list stmt) :=
   _ <- for_each insert_namespace_and_add_definitions ast ;;
   _ <- for_each (fun m => resolve_global_variables (m_file m) (m_stmts m)) ast ;;
-  out <- block_with (stmt_r fuel) (flat_map m_stmts ast) ;;
+  out <- block_with (stmt_r fl fuel) (flat_map m_stmts ast) ;;
   start <- lift (fun st => lookup_global st 0 "start") ;;
   match start with
   | None => fail ENoStart (span_zero 0)
   | Some _ => ret out
   end.
 
-Definition resolve_fuel (fuel : nat) (ast : past) : res resolved :=
-  match resolve_m fuel ast (init_state ast) with
+Definition resolve_fuel (fl : rflags) (fuel : nat) (ast : past) : res resolved :=
+  match resolve_m fl fuel ast (init_state ast) with
   | Ok (out, st) => Ok (mkResolved (rev (st_vars st)) out)
   | Err e => Err e
   | Panic s => Panic s
   | OutOfFuel => OutOfFuel
   end.
 
-Definition resolve (ast : past) : res resolved := resolve_fuel (fuel_of ast) ast.
+Definition resolve (fl : rflags) (ast : past) : res resolved := resolve_fuel fl (fuel_of ast) ast.
